@@ -99,18 +99,16 @@ def proof_part(ctx, out, extra_modules=()):
                 if module_imports(f"EnumToolsModel.Thm.{ctx.pid}", e["module"]):
                     problems.append({"kind": "translator", "module": e["module"], "msg": e["msg"]})
             elif e["kind"] == "build":
+                if ctx.pid in lean.get("thm_modules_built", []):
+                    continue  # this property's theorems (and everything they import) still check
                 failed = lean.get("failed_modules", [])
-                mine = [m for m in failed if m in (f"EnumToolsModel.Thm.{ctx.pid}",) + tuple(extra_modules)
-                        or m.startswith("EnumToolsModel.Generated")
-                        or not m.startswith("EnumToolsModel.Thm")]
-                if not mine:
-                    continue  # some other property's theorem module failed
-                hand = [m for m in mine if not module_imports_generated(m)]
-                if hand:
-                    raise RuntimeError("hand-written Lean module failed to build (edit of /verif?): " + ", ".join(hand)
+                culprits = [m for m in failed if module_imports(f"EnumToolsModel.Thm.{ctx.pid}", m)]
+                hand = [m for m in culprits if not module_imports_generated(m)]
+                if hand or not culprits:
+                    raise RuntimeError("hand-written Lean module failed to build (edit of /verif?): " + ", ".join(hand or failed)
                                        + "\n" + lean.get("build_tail", "")[-3000:])
                 problems.append({"kind": "proof", "msg": "theorem module(s) over the regenerated model no longer check: "
-                                 + ", ".join(mine), "build_tail": lean.get("build_tail", "")[-3000:]})
+                                 + ", ".join(culprits), "build_tail": lean.get("build_tail", "")[-3000:]})
             elif e["kind"] in ("forbidden", "axioms", "audit"):
                 raise RuntimeError(f"Lean audit failed ({e['kind']}): {e['msg'][:2000]}")
     if ctx.tier == "thorough" and lean.get("ok") and thms:
